@@ -224,10 +224,16 @@ impl Ctor {
     pub const fn new(hv: u8, p: u32, base: u8) -> Ctor {
         Ctor { hv, p, fill: Fill::b(base) }
     }
+    /// header variants: 0 zeros, 1 all-ones, 2 distinct upper-case bytes; 3 lower-case letters, 4 blank-padded,
+    /// 5 NUL-padded, 6 blanks / tab / newline / NUL mixed (identifiers a clean-up helper would touch)
     pub fn oem_id(&self) -> [u8; 6] {
         match self.hv {
             0 => [0; 6],
             1 => [0xff; 6],
+            3 => *b"verif1",
+            4 => *b"AB    ",
+            5 => *b"AB\0\0\0\0",
+            6 => *b" a\tB\n\0",
             _ => *b"VERIF1",
         }
     }
@@ -235,6 +241,10 @@ impl Ctor {
         match self.hv {
             0 => [0; 8],
             1 => [0xff; 8],
+            3 => *b"veriftbl",
+            4 => *b"TBL     ",
+            5 => *b"TBL\0\0\0\0\0",
+            6 => *b"\0t B\r\n z",
             _ => *b"VERIFTBL",
         }
     }
@@ -242,6 +252,10 @@ impl Ctor {
         match self.hv {
             0 => 0,
             1 => 0xffff_ffff,
+            3 => 0x6463_6261,
+            4 => 0x2020_2020,
+            5 => 1,
+            6 => 0x0a0d_0920,
             _ => 0x0403_0201,
         }
     }
